@@ -1,3 +1,7 @@
+CONSTANTS
+  MaxLabel = 63
+  MaxName = 255
+  MaxRefs = 16
 INIT Init
 NEXT NextC15
 CHECK_DEADLOCK FALSE
